@@ -441,6 +441,103 @@ func BubbleGoroutines() int {
 	return strings.Count(string(buf[:m]), marker)
 }
 
+// BubbleGoroutineProfile counts the goroutines of the calling goroutine's bubble by the function they were
+// started with (bottom frame of the stack).
+func BubbleGoroutineProfile() map[string]int {
+	var hdr [128]byte
+	n := runtime.Stack(hdr[:], false)
+	first := string(hdr[:n])
+	i := strings.Index(first, "synctest bubble ")
+	if i < 0 {
+		return nil
+	}
+	k := i + len("synctest bubble ")
+	for k < len(first) && first[k] >= '0' && first[k] <= '9' {
+		k++
+	}
+	marker := first[i:k] + "]"
+	buf := make([]byte, 8<<20)
+	m := runtime.Stack(buf, true)
+	out := map[string]int{}
+	for _, g := range strings.Split(string(buf[:m]), "\n\n") {
+		lines := strings.Split(g, "\n")
+		if len(lines) == 0 || !strings.Contains(lines[0], marker) {
+			continue
+		}
+		bottom := ""
+		for _, l := range lines[1:] {
+			if l == "" || l[0] == '\t' || strings.HasPrefix(l, "created by ") {
+				continue
+			}
+			bottom = l
+		}
+		if j := strings.LastIndex(bottom, "("); j > 0 {
+			bottom = bottom[:j]
+		}
+		out[bottom]++
+	}
+	return out
+}
+
+// BubbleOrphans counts, by start function, the goroutines of the calling goroutine's bubble that were created by one of
+// the given goroutines (ids) - e.g. by workload callers whose calls have all returned.
+func BubbleOrphans(creators map[uint64]bool) map[string]int {
+	var hdr [128]byte
+	n := runtime.Stack(hdr[:], false)
+	first := string(hdr[:n])
+	i := strings.Index(first, "synctest bubble ")
+	if i < 0 {
+		return nil
+	}
+	k := i + len("synctest bubble ")
+	for k < len(first) && first[k] >= '0' && first[k] <= '9' {
+		k++
+	}
+	marker := first[i:k] + "]"
+	buf := make([]byte, 8<<20)
+	m := runtime.Stack(buf, true)
+	out := map[string]int{}
+	for _, g := range strings.Split(string(buf[:m]), "\n\n") {
+		lines := strings.Split(g, "\n")
+		if len(lines) == 0 || !strings.Contains(lines[0], marker) {
+			continue
+		}
+		bottom, creator := "", uint64(0)
+		for _, l := range lines[1:] {
+			if l == "" || l[0] == '\t' {
+				continue
+			}
+			if strings.HasPrefix(l, "created by ") {
+				if j := strings.LastIndex(l, " in goroutine "); j > 0 {
+					fmt.Sscanf(l[j+len(" in goroutine "):], "%d", &creator)
+				}
+				continue
+			}
+			bottom = l
+		}
+		if !creators[creator] || !strings.Contains(bottom, repoPrefix) {
+			continue
+		}
+		if j := strings.LastIndex(bottom, "("); j > 0 {
+			bottom = bottom[:j]
+		}
+		out[bottom]++
+	}
+	return out
+}
+
+// GoroutineLeaks compares two profiles: functions of the repository whose goroutine count grew by at least two.
+func GoroutineLeaks(before, after map[string]int) []string {
+	var out []string
+	for fn, n := range after {
+		if strings.Contains(fn, repoPrefix) && n-before[fn] >= 2 {
+			out = append(out, fmt.Sprintf("%s: %d -> %d", fn, before[fn], n))
+		}
+	}
+	sort.Strings(out)
+	return out
+}
+
 // CountGoroutines returns the number of live goroutines whose stack mentions the repository.
 func CountGoroutines() int {
 	buf := make([]byte, 1<<20)
